@@ -5177,3 +5177,60 @@ def ap3(m, run, rule='AP3.least-squares-fit-is-the-normal-equations-solution'):
     for fi_, bad, n_ in ((m.func('fitting.approximate_curve'), bad_c, ncase_c), (m.func('fitting.approximate_surface'), bad_s, ncase_s)):
         run.ob(rule, '%s :: %d cases' % (fi_.key, n_), not bad, 'the control points are the solution of Eqs. 9.63 - 9.67, exactly in the data points' if not bad else
                '%s: %s   [%d of %d cases]' % (bad[0][0], bad[0][1], len(bad), n_), 'geomdl/fitting.py:%d in %s' % (fi_.node.lineno, fi_.key))
+
+
+# ====================================================================================== C09 / C12: every cache key exists on a new object and on a deep copy
+def ck3(m, run, classes, keys_of, rule='CK3.cache-keys-exist-on-new-objects-and-copies'):
+    """CK3: every class is constructed by interpreting its own __init__ chain and then deep-copied by interpreting its own __deepcopy__
+    (memo contract modelled): the cache dictionary of the new object and of the copy holds every key some method of the class reads
+    (`keys_of(cls)`: enumerated from the source), each with an empty value, and the two dictionaries are different objects"""
+    for cls in classes:
+        keys = sorted(keys_of(cls))
+        if not keys:
+            continue
+        key = '%s.%s :: keys %s' % (cls[0], cls[1], ', '.join(keys))
+        sk = SK(m, dict(STD_ABSTRACTED))
+        sk.construct = True
+        sk.follow_deepcopy = True
+        why = None
+        try:
+            obj = sk.apply(('class', cls), [2, 3] if cls[0] == 'CPGen' else [], {}, None)      # a grid generator needs its extents
+            c0 = obj._a.get('_cache')
+            if not isinstance(c0, dict):
+                why = 'a new object has no cache dictionary'
+            else:
+                miss = [k for k in keys if k not in c0]
+                full = [k for k in keys if k in c0 and c0[k]]
+                twice = [(k1, k2) for i_, k1 in enumerate(keys) for k2 in keys[i_ + 1:] if k1 in c0 and k2 in c0 and isinstance(c0[k1], (list, dict)) and c0[k1] is c0[k2]]
+                if miss:
+                    why = 'a new object has no cache entry %r: the first read raises KeyError' % miss[0]
+                elif full:
+                    why = 'cache entry %r of a new object is not empty' % full[0]
+                elif twice:
+                    why = 'the cache entries %r and %r of a new object are one and the same list: what is cached under one name shows up under the other' % twice[0]
+            if why is None and m.lookup(cls, '__deepcopy__', 'methods') is not None:
+                from .skel import BUILTINS
+                cp = BUILTINS['deepcopy'].f(sk, None, obj)
+                c1 = cp._a.get('_cache') if isinstance(cp, Bag) else None
+                if not isinstance(cp, Bag) or cp is obj:
+                    why = 'the deep copy is not a new object'
+                elif not isinstance(c1, dict):
+                    why = 'the deep copy has no cache dictionary'
+                elif c1 is c0:
+                    why = 'the deep copy shares the cache dictionary of its source'
+                else:
+                    miss = [k for k in keys if k not in c1]
+                    full = [k for k in keys if k in c1 and c1[k]]
+                    twice = [(k1, k2) for i_, k1 in enumerate(keys) for k2 in keys[i_ + 1:] if k1 in c1 and k2 in c1 and isinstance(c1[k1], (list, dict)) and c1[k1] is c1[k2]]
+                    if twice:
+                        why = 'the cache entries %r and %r of a deep copy are one and the same list' % twice[0]
+                    elif miss:
+                        why = 'the deep copy has no cache entry %r (its cache is a fresh dictionary that nobody fills with the keys): reading it on a copy raises KeyError' % miss[0]
+                    elif full:
+                        why = 'cache entry %r of a deep copy of a new object is not empty' % full[0]
+        except Violation as v:
+            why = '%s %s' % (v.msg, v.where())
+        except Unsupported as ex:
+            raise AnalysisError('%s: interpreter met an unsupported construct: %s' % (key, ex))
+        ci = m.classes[cls]
+        run.ob(rule, key, why is None, 'present and empty on a new object and on its deep copy' if why is None else why, 'geomdl/%s.py:%d in %s.%s' % (cls[0], ci.node.lineno, cls[0], cls[1]))
